@@ -515,23 +515,42 @@ impl ClusterHandler for GenCommHandler<'_> {
                 let pase_sess_id =
                     matches!(sess.get_session_mode(), SessionMode::Pase { .. }).then(|| sess.id());
 
-                let fabric = state
+                // First make the commissioned state durable - the fabric and the network
+                // settings - while the fail-safe is still armed: if a store fails, the
+                // command fails with the fail-safe context intact, so the commissioning
+                // can still be rolled back by the fail-safe expiry (or the command retried).
+                // Disarming first would leave a disarmed fail-safe with a fabric that is
+                // operational but not persisted - neither committed nor rolled back.
+                let fab_idx = state
+                    .failsafe
+                    .check_disarm(sess.get_session_mode(), &state.fabrics)?;
+
+                persist.store(state.fabrics.fabric(fab_idx)?)?;
+                ctx.networks().access(|networks| {
+                    let was_managed = networks.managed()?;
+                    networks.set_managed(true)?;
+
+                    let result = persist
+                        .persist_mut()
+                        .store(NETWORKS_KEY, |buf| networks.save(buf));
+
+                    if result.is_err() {
+                        // Still staged under the fail-safe
+                        networks.set_managed(was_managed)?;
+                    }
+
+                    result
+                })?;
+
+                // Everything is stored: only now disarm, close the window and drop PASE,
+                // prior to sending the other party a "success" status
+                state
                     .failsafe
                     .disarm(sess.get_session_mode(), &mut state.fabrics)?;
 
                 state.pase.close_comm_window(notify_mdns, notify_change)?;
                 state.sessions.remove_pase(pase_sess_id);
                 ctx.exchange().matter().transport().notify_session_removed();
-
-                // Finally, persist the fabric and the network settings, prior to sending the other party a "success" status
-                persist.store(fabric)?;
-                ctx.networks().access(|networks| {
-                    networks.set_managed(true)?;
-
-                    persist
-                        .persist_mut()
-                        .store(NETWORKS_KEY, |buf| networks.save(buf))
-                })?;
 
                 info!("Commissioning complete, fabric and network settings persisted");
 
